@@ -113,6 +113,7 @@ var mandatory = map[string]bool{
 	"life.wait":            true,
 	"serve.retrywait":      true,
 	"serve.wait":           true,
+	"conn.callback":        true,
 	"keylock.wake":         true,
 	"updateIndex.start":    true,
 	"handleChange.afterDo": true,
